@@ -76,6 +76,7 @@ type c12Server struct {
 	needAuth bool         // clients authenticate: a connection abandoned before that counts as a failed attempt
 	auths    atomic.Int64 // completions with a valid signature
 	badAuth  atomic.Int64
+	greet    func(k, gen int) [][]byte // packets written right behind the handshake answer of connection gen of listener k (under mu)
 	nq       int      // queries received (under mu)
 	last     c12Query // the latest one (under mu)
 	lastRaw  []byte
@@ -236,7 +237,9 @@ func (l *c12Ln) serve(c net.Conn) {
 	if d := l.hsDelay.Load(); d > 0 {
 		time.Sleep(time.Duration(d) * time.Millisecond)
 	}
-	if err := fc.send(nil); err != nil { // the empty packet that completes the handshake
+	// the empty packet that completes the handshake and, in the SAME Write, whatever the
+	// scenario lets the server say first (c12_r8.go): the boundary between handshake and session
+	if err := fc.sendBurst(append([][]byte{nil}, s.greeting(l)...)); err != nil {
 		return
 	}
 	l.mu.Lock()
